@@ -180,6 +180,29 @@ func (c *Ctx) c05Sibling(fo *FO) {
 						}
 					}
 					if ev.Role == "ErrorsWrite" && len(ev.Args) > 2 {
+						// only a failure of this execution's builder is cached: re-caching an error served from the failure cache
+						// renews its TTL on every Get (the builder is then never tried again while the key is requested)
+						fromBuilder := func(v *pw.Val) bool {
+							return v != nil && v.Kind == pw.KCall && v.Ev != nil && isBuilderCall(fo, v.Ev) && v.Idx == 1
+						}
+						ev2 := ev.Args[2]
+						okSrc := fromBuilder(ev2)
+						if !okSrc && ev2 != nil && ev2.Kind == pw.KCall && ev2.Ev != nil && ev2.Ev.Callee != nil && pw.FuncName(ev2.Ev.Callee) == "fmt.Errorf" {
+							for _, a := range ev2.Ev.Args {
+								if fromBuilder(a) {
+									okSrc = true
+								}
+								for _, el := range a.Elems {
+									if fromBuilder(el) {
+										okSrc = true
+									}
+								}
+							}
+						}
+						if !okSrc {
+							d, t := c.pathDetail(fo, p, "the error written to the failure cache is not the error this execution's builder returned: "+ev2.String())
+							r.Bad("R05.3", cons, "cached-error-not-from-builder", c.Pos(ev.Pos), d, t)
+						}
 						if n, known := fp.NilFact(ev.Args[2]); !known || n {
 							d, t := c.pathDetail(fo, p, "a possibly nil error is written to the failure cache")
 							r.Bad("R05.3", cons, "nil-error-cached", c.Pos(ev.Pos), d, t)
